@@ -149,7 +149,7 @@ pub fn module(r: &mut Rng, allow_unstable: bool) -> (Vec<u8>, AInfo) {
         // tools leave stale entries behind (an index that no longer exists): they must be ignored without affecting other names
         let stale = r.chance(1, 5);
         if only.is_none() && r.chance(1, 2) { ns.module(&name(r)); }
-        let mk = |r: &mut Rng, n: usize, kind: u64| { let mut nm = we::NameMap::new(); let on = only.map(|o| o == kind).unwrap_or(true); for k in 0..n as u32 { if on && (only.is_some() || r.chance(1, 2)) { nm.append(k, &format!("{}{}", name(r), k)); } }
+        let mk = |r: &mut Rng, n: usize, kind: u64| { let mut nm = we::NameMap::new(); let on = only.map(|o| o == kind).unwrap_or(true); for k in 0..n as u32 { if on && (only.is_some() || r.chance(1, 2)) { let nm_s = if r.chance(1, 6) { String::new() } else { format!("{}{}", name(r), k) }; nm.append(k, &nm_s); } }   // sometimes the EMPTY name (legal; with synthetic names on, walrus treats an empty local name as absent)
             if on && stale { nm.append(n as u32 + 3, "stale-entry-for-an-index-that-does-not-exist"); } nm };
         let fm = mk(r, funcs.len(), 0); if !fm.is_empty() || only.is_none() { ns.functions(&fm); }
         let mut ind = we::IndirectNameMap::new(); let mut any_l = false; for fi in n_imp_funcs..funcs.len() { if only.map(|o| o == 1).unwrap_or(r.chance(1, 2)) { let np = types[funcs[fi] as usize].0.len(); let lm = mk(r, np + 2, 1); if !lm.is_empty() { any_l = true; ind.append(fi as u32, &lm); } } }
